@@ -14,6 +14,8 @@
 (*   [k |-> "slice", e]  [k |-> "array", n, e]  [k |-> "ptr", e]           *)
 (*   [k |-> "map", key, e]        key: str or int type                     *)
 (*   [k |-> "any"]                                                         *)
+(*   [k |-> "bytes"]  ([]byte)   [k |-> "barr", n]  ([n]byte): binary data *)
+(*        written as a string in Base 64 (RFC 4648 section 4, padded)      *)
 (*   [k |-> "struct", f]          f: sequence of fields                    *)
 (*        [name (code points), t, omitzero, omitempty, str, casing]        *)
 (*        (already resolved: embedding and name conflicts are Fields.tla)  *)
@@ -25,6 +27,7 @@
 (*   slice [nil, e]   array [e]   ptr [nil] / [nil, e]                     *)
 (*   map [nil, m]  m: sequence of <<key, value>> sorted by the key's name  *)
 (*   any [nil] / [nil, dt, e]   dt: the dynamic type                       *)
+(*   bytes [nil, b (sequence of 0..255)]   barr [b]                        *)
 (*   struct [f]  sequence of field values                                  *)
 (*                                                                         *)
 (* JSON values J (numbers keep their spelling: it decides conversion)      *)
@@ -68,6 +71,8 @@ Zero(t) ==
       [] t.k = "int" -> [neg |-> FALSE, mag |-> <<0>>]
       [] t.k = "float" -> [neg |-> FALSE, d |-> <<>>, n |-> 0]
       [] t.k = "slice" -> [nil |-> TRUE, e |-> <<>>]
+      [] t.k = "bytes" -> [nil |-> TRUE, b |-> <<>>]
+      [] t.k = "barr" -> [b |-> [i \in 1..t.n |-> 0]]
       [] t.k = "array" -> [e |-> [i \in 1..t.n |-> Zero(t.e)]]
       [] t.k = "map" -> [nil |-> TRUE, m |-> <<>>]
       [] t.k \in {"ptr", "any"} -> [nil |-> TRUE]
@@ -80,7 +85,8 @@ IsZero(t, v) ==
       [] t.k = "str" -> v.s = <<>>
       [] t.k = "int" -> v.mag = <<0>>
       [] t.k = "float" -> v.d = <<>>
-      [] t.k \in {"slice", "map", "ptr", "any"} -> v.nil
+      [] t.k \in {"slice", "map", "ptr", "any", "bytes"} -> v.nil
+      [] t.k = "barr" -> \A i \in 1..t.n : v.b[i] = 0
       [] t.k = "array" -> \A i \in 1..t.n : IsZero(t.e, v.e[i])
       [] t.k = "struct" -> \A i \in 1..Len(t.f) : IsZero(t.f[i].t, v.f[i])
 
@@ -88,6 +94,7 @@ IsZero(t, v) ==
 KnownEmpty(t, v) ==
     CASE t.k = "str" -> v.s = <<>>
       [] t.k \in {"slice", "array"} -> v.e = <<>>
+      [] t.k \in {"bytes", "barr"} -> v.b = <<>>
       [] t.k = "map" -> v.m = <<>>
       [] t.k \in {"ptr", "any"} -> v.nil
       [] OTHER -> FALSE
@@ -119,6 +126,37 @@ EmptyJ(j) == \/ j.t = "null"
              \/ j.t = "arr" /\ j.e = <<>>
              \/ j.t = "obj" /\ j.m = <<>>
 
+\* ------------------------------------------------------------------ Base 64 (RFC 4648 section 4)
+B64Char(i) == IF i < 26 THEN 65 + i ELSE IF i < 52 THEN 71 + i ELSE IF i < 62 THEN i - 4 ELSE IF i = 62 THEN 43 ELSE 47
+B64Val(c) == IF c \in 65..90 THEN c - 65 ELSE IF c \in 97..122 THEN c - 71 ELSE IF c \in 48..57 THEN c + 4
+             ELSE IF c = 43 THEN 62 ELSE IF c = 47 THEN 63 ELSE -1
+
+RECURSIVE B64Enc(_)
+B64Enc(b) ==
+    IF b = <<>> THEN <<>>
+    ELSE IF Len(b) = 1 THEN <<B64Char(b[1] \div 4), B64Char((b[1] % 4) * 16), 61, 61>>
+    ELSE IF Len(b) = 2 THEN <<B64Char(b[1] \div 4), B64Char((b[1] % 4) * 16 + b[2] \div 16), B64Char((b[2] % 16) * 4), 61>>
+    ELSE <<B64Char(b[1] \div 4), B64Char((b[1] % 4) * 16 + b[2] \div 16), B64Char((b[2] % 16) * 4 + b[3] \div 64), B64Char(b[3] % 64)>>
+         \o B64Enc(SubSeq(b, 4, Len(b)))
+
+\* [ok, b]: padding is required and only ends the text, no other characters (no line breaks);
+\* unused bits of the last group need not be zero (RFC 4648 section 3.5 leaves that open)
+RECURSIVE B64Dec(_)
+B64Dec(s) ==
+    IF s = <<>> THEN [ok |-> TRUE, b |-> <<>>]
+    ELSE IF Len(s) < 4 THEN [ok |-> FALSE]
+    ELSE LET q == SubSeq(s, 1, 4)
+             last == Len(s) = 4
+             v(i) == B64Val(q[i]) IN
+         IF v(1) < 0 \/ v(2) < 0 THEN [ok |-> FALSE]
+         ELSE IF last /\ q[3] = 61 /\ q[4] = 61 THEN [ok |-> TRUE, b |-> <<v(1) * 4 + v(2) \div 16>>]
+         ELSE IF v(3) < 0 THEN [ok |-> FALSE]
+         ELSE IF last /\ q[4] = 61 THEN [ok |-> TRUE, b |-> <<v(1) * 4 + v(2) \div 16, (v(2) % 16) * 16 + v(3) \div 4>>]
+         ELSE IF v(4) < 0 THEN [ok |-> FALSE]
+         ELSE LET r == B64Dec(SubSeq(s, 5, Len(s))) IN
+              IF r.ok THEN [ok |-> TRUE, b |-> <<v(1) * 4 + v(2) \div 16, (v(2) % 16) * 16 + v(3) \div 4, (v(3) % 4) * 64 + v(4)>> \o r.b]
+              ELSE r
+
 RECURSIVE Marshal(_, _, _, _)
 Marshal(t, v, o, st) ==
     \* the `string` option is for numbers (possibly behind pointers): anything else is an error
@@ -130,6 +168,8 @@ Marshal(t, v, o, st) ==
     \* composites are no numbers and no names
     ELSE IF st.tag \/ st.key THEN ERR
     ELSE IF t.k = "any" THEN (IF v.nil THEN JNull ELSE Marshal(v.dt, v.e, o, NoSt))
+    ELSE IF t.k = "bytes" /\ v.nil /\ o.nsn THEN JNull
+    ELSE IF t.k \in {"bytes", "barr"} THEN [t |-> "str", s |-> B64Enc(v.b)]
     ELSE IF t.k = "slice" /\ v.nil /\ o.nsn THEN JNull
     ELSE IF t.k \in {"slice", "array"} THEN
          LET es == [i \in 1..Len(v.e) |-> Marshal(t.e, v.e[i], o, NoSt)] IN
@@ -240,6 +280,12 @@ Unmarshal(t, old, j, o, st) ==
                    ELSE IF nf.d # <<>> /\ nf.n <= -330 THEN OK([neg |-> nf.neg, d |-> <<>>, n |-> 0])
                    ELSE OK([neg |-> nf.neg, d |-> nf.d, n |-> nf.n])
               ELSE FAIL
+    ELSE IF t.k \in {"bytes", "barr"} THEN
+         IF j.t # "str" THEN FAIL
+         ELSE LET r == B64Dec(j.s) IN
+              IF ~r.ok THEN FAIL
+              ELSE IF t.k = "bytes" THEN OK([nil |-> FALSE, b |-> r.b])
+              ELSE IF Len(r.b) = t.n THEN OK([b |-> r.b]) ELSE FAIL
     ELSE IF t.k = "slice" THEN
          \* the slice ends up holding exactly the new elements, each decoded into a zero value
          IF j.t # "arr" THEN FAIL
@@ -320,7 +366,7 @@ RECURSIVE Nullish(_, _, _)
 Nullish(t, v, o) ==
     CASE t.k = "ptr" -> v.nil \/ Nullish(t.e, v.e, o)
       [] t.k = "any" -> v.nil \/ Nullish(v.dt, v.e, o)
-      [] t.k = "slice" -> v.nil /\ o.nsn
+      [] t.k \in {"slice", "bytes"} -> v.nil /\ o.nsn
       [] t.k = "map" -> v.nil /\ o.nmn
       [] OTHER -> FALSE
 
@@ -328,6 +374,7 @@ Nullish(t, v, o) ==
 RECURSIVE Norm(_, _, _)
 Norm(t, v, o) ==
     CASE t.k = "slice" -> [nil |-> FALSE, e |-> [i \in 1..Len(v.e) |-> Norm(t.e, v.e[i], o)]]
+      [] t.k = "bytes" -> [nil |-> FALSE, b |-> v.b]
       [] t.k = "array" -> [e |-> [i \in 1..Len(v.e) |-> Norm(t.e, v.e[i], o)]]
       [] t.k = "map" -> [nil |-> FALSE, m |-> [i \in 1..Len(v.m) |-> <<v.m[i][1], Norm(t.e, v.m[i][2], o)>>]]
       [] t.k = "ptr" -> IF Nullish(t, v, o) THEN [nil |-> TRUE] ELSE [nil |-> FALSE, e |-> Norm(t.e, v.e, o)]
